@@ -633,3 +633,35 @@ def run(ctx):
     for b, bb, t in users:
         r5.inst({'user': b.id, 'site': mirq.site(b, bb)}, kind=b.id)
     r5.need(5)
+
+    sentinel_not_charged(ctx)
+
+
+def sentinel_not_charged(ctx):
+    """R08.6: the search limit counts the elements a searching builtin examines.  Where an adaptor pairs its source with the search
+    budget (`zip(search_iter())`), the thing paired is the source itself: an end-of-input marker chained onto the source
+    (`.chain(once(None))`) *before* the zip takes a permit of its own, so an input of exactly L elements fails at L although only
+    L elements are examined.  Decided on the type of the zipped operand: it contains no `Once` chained behind the source."""
+    mir = ctx.mir
+    r6 = ctx.rule('R08.6', 'an end-of-input sentinel is not paired with a search permit')
+    bs = mir.find('runtime::RuntimeLimits::search_iter')
+    bty = (bs[0].locals[0]['ty'] if len(bs) == 1 else '') or ''
+    n = 0
+    for b in mir.bodies:
+        if not b.file.startswith('src/builtin/') or '::tests::' in b.nid:
+            continue
+        for bb, t in b.calls():
+            if strip_generics(t.get('decl') or '') != 'std::iter::Iterator::zip' or len(t.get('argtys') or []) < 2:
+                continue
+            a0, a1 = t['argtys'][0], t['argtys'][1]
+            if not (bty and bty.lstrip('&').strip() in a1) and not ('RuntimeViolation' in a1 and 'std::result::Result<(), ' in a1):
+                continue
+            n += 1
+            from .lib.types import split_generic
+            head0, args0 = split_generic(a0.strip())
+            sentinel = head0 == 'std::iter::Chain' and len(args0) == 2 and split_generic(args0[1].strip())[0] in ('std::iter::Once', 'std::iter::OnceWith', 'std::option::IntoIter')
+            fn = strip_generics(mir.enclosing_fn(b)) if b.kind == 'closure' else b.nid
+            r6.inst({'fn': fn, 'site': mirq.site(b, bb), 'sentinel_chained_before_the_zip': sentinel}, ok=not sentinel, kind=(b.nid, bb))
+            if sentinel:
+                r6.fail('%s/sentinel-takes-a-permit' % fn.split('::')[-1], mirq.site(b, bb), 'the source is extended by an end-of-input marker before it is zipped with the search budget: the marker consumes a permit, so an input of exactly L elements ends in MaximumSearch ([3,6,9,2,1,3,1,7].to_generator().group(..).to_array() fails under maximum_search = 8 and passes under 9)')
+    r6.need(5)
